@@ -32,6 +32,11 @@ for d in sorted(glob.glob('/verif/seeded/C*/*')):
                 break
     first = re.sub(r'^C\d\d m\d\s*[-–:]\s*', '', first)[:230]
     rc, classes = ev.get((pid, name), (None, ''))
+    if rc is None and os.path.exists(os.path.join(d, 'meta.json')):
+        # not part of this evaluation log: keep the result recorded by the previous evaluation
+        oldcr = json.load(open(os.path.join(d, 'meta.json'))).get('check_result', {})
+        if isinstance(oldcr, dict) and oldcr.get('exit') is not None:
+            rc, classes = oldcr.get('exit'), oldcr.get('classes', '') + ' (evaluation before the last)'
     if name.startswith('w'):
         meta = dict(property=pid, mutant=name, author='independent sub-agent given only the property text and a scratch worktree',
                     description_by_author=desc, demonstration='demo_test.go.txt (copy into the package directory named at its top as *_test.go)',
